@@ -76,7 +76,7 @@ def _dir_pipeline(pl, sd, fix, info, cid):
         if len(pl) > 1 and pl[1]["tool"] == "sign-bundle signatures-section":
             p2 = pl[1]["p"]
             cert = os.path.join(sd, "cert.cbor")
-            rcg, sog, seg = run("gen-certurl", ["-pem", os.path.join(fix, p2["curve"] + "-cert1.pem"), "-ocsp", os.path.join(fix, "ocsp.der")], sd)
+            rcg, sog, seg = run("gen-certurl", ["-pem", os.path.join(fix, "%s-cert%d.pem" % (p2["curve"], p2.get("ncerts", 1))), "-ocsp", os.path.join(fix, "ocsp.der")], sd)
             open(cert, "wb").write(sog)
             signed = os.path.join(sd, "signed.wbn")
             rcs, sos, ses = run("sign-bundle", ["signatures-section", "-i", out, "-o", signed, "-certificate", cert, "-privateKey", os.path.join(fix, "%s-%s.key" % (p2["curve"], p2["keyform"])),
@@ -124,14 +124,14 @@ def _cert_pipeline(pl, sd, fix, info, cid):
 
 def _sxg_pipeline(pl, sd, fix, info, cid):
     p0, p1 = pl[0]["p"], pl[1]["p"]
-    rcg, sog, seg = run("gen-certurl", ["-pem", os.path.join(fix, p1["curve"] + "-cert1.pem"), "-ocsp", os.path.join(fix, "ocsp.der")], sd)
+    rcg, sog, seg = run("gen-certurl", ["-pem", os.path.join(fix, "%s-cert%d.pem" % (p1["curve"], p0.get("ncerts", 1))), "-ocsp", os.path.join(fix, "ocsp.der")], sd)
     cp = os.path.join(sd, "cert.cbor")
     open(cp, "wb").write(sog)
     content = {"empty": b"", "small": b"<p>hello</p>", "multi": bytes(range(256)) * 3}[p1["content"]]
     open(os.path.join(sd, "payload"), "wb").write(content)
     out = os.path.join(sd, "out.sxg")
     args = ["-version", p1["ver"], "-uri", "https://example.com/doc.html", "-status", str(p1["status"]), "-content", os.path.join(sd, "payload"),
-            "-certificate", os.path.join(fix, p1["curve"] + "-cert1.pem"), "-privateKey", os.path.join(fix, "%s-%s.key" % (p1["curve"], p1["keyform"])),
+            "-certificate", os.path.join(fix, "%s-cert%d.pem" % (p1["curve"], p0.get("ncerts", 1))), "-privateKey", os.path.join(fix, "%s-%s.key" % (p1["curve"], p1["keyform"])),
             "-certUrl", "https://example.com/cert.cbor", "-validityUrl", "https://example.com/validity", "-miRecordSize", str(p1["rs"]), "-expire", p1["expire"], "-o", out]
     if p1["cc"] == "public":
         args += ["-responseHeader", "Cache-Control: public, max-age=60"]
@@ -186,7 +186,7 @@ def check_c20(tier):
                        "Cache-Control none / one line / two lines x empty / small / multi-record content) -> dump-signedexchange -verify; gen-bundle -har -> dump-bundle), "
                        "checks the closure of the contracts and exports the pipelines; each is executed with binaries built from /repo's working tree in scratch "
                        "directories; Trace_Cli judges exit statuses and the FILES by the format specifications (WellFormedBundle + directory relation, ChainBytes, "
-                       "RefRead + Accept with JDK ECDSA, BlockBytes + JDK Ed25519, WebBundleId). quick runs every non-sxg pipeline and every 6th sxg pipeline. "
+                       "RefRead + Accept with JDK ECDSA, BlockBytes + JDK Ed25519, WebBundleId). quick runs every non-sxg pipeline and every 12th sxg pipeline. "
                        "distinct_nontrivial = distinct executed pipelines")
     r = tlc("MC_Cli", "SPECIFICATION Spec\nINVARIANTS ClosureHolds\nCHECK_DEADLOCK FALSE\n", "C20/mc")
     rep.add_tlc("MC_Cli", r)
@@ -203,7 +203,7 @@ def check_c20(tier):
         tool = pl[0]["tool"]
         if len(pl) > 1 and pl[1]["tool"] == "gen-signedexchange":
             sx += 1
-            if tier == "quick" and (sx + vlib.seed()) % 6 != 0:
+            if tier == "quick" and (sx + vlib.seed()) % 12 != 0:
                 continue
         sd = vlib.fresh(os.path.join(scratch, "p%d" % i))
         cid = "p%d" % i
